@@ -28,6 +28,9 @@ type Case struct {
 	Backend  string   `json:"backend"`
 	Sessions []Sess   `json:"sessions"`
 	Order    []string `json:"order"` // cancel, finish:<i>, drain-smtp, drain-pop3, connect-smtp, connect-pop3, release
+	// RetentionOff runs the scanner with period 0 (disabled): Start returns at once and Join
+	// must still not block shutdown.
+	RetentionOff bool `json:"retention_off,omitempty"`
 }
 
 var prop = hx.Prop[Case]{
@@ -68,6 +71,7 @@ var prop = hx.Prop[Case]{
 			acts = append(acts, fmt.Sprintf("finish:%d", i))
 		}
 		c.Order = rapid.Permutation(acts).Draw(t, "order")
+		c.RetentionOff = rapid.IntRange(0, 2).Draw(t, "retoff") == 0
 		return c
 	},
 	Run: run,
@@ -143,7 +147,11 @@ func run(c Case) *hx.Outcome {
 	smtpReady, pop3Ready := make(chan struct{}), make(chan struct{})
 	go func() { w.SMTP.Start(w.Ctx, func() { close(smtpReady) }); close(smtpStarted) }()
 	go func() { w.POP3.Start(w.Ctx, func() { close(pop3Ready) }); close(pop3Started) }()
-	rs := storage.NewRetentionScanner(config.Storage{RetentionPeriod: time.Hour, RetentionSleep: time.Second}, w.Store)
+	period := time.Hour
+	if c.RetentionOff {
+		period = 0
+	}
+	rs := storage.NewRetentionScanner(config.Storage{RetentionPeriod: period, RetentionSleep: time.Second}, w.Store)
 	rsDone := make(chan struct{})
 	go func() { rs.Start(w.Ctx); close(rsDone) }()
 	if !within(o, "harness", "SMTP listener ready", 5*time.Second, smtpReady) || !within(o, "harness", "POP3 listener ready", 5*time.Second, pop3Ready) {
